@@ -27,7 +27,7 @@ class C01(common.Prop):
             "limbs/colours, F,P incl. 0, D 1..4, float32 bit-pattern classes, float64 inputs) with ~25% carrying one "
             "unrepresentable/edge feature; each case is written, and read back under three header-memo states; "
             "non-trivial = write accepted by the implementation or rejected for a reason other than rank; distinct by content hash")
-    TRUSTED = ["Coq 8.16.1 kernel (vm_compute used for the UTF-8 sweep)", "harness/translate_py.py (fail-closed ast translator)",
+    TRUSTED = ["Coq 8.16.1 kernel (UTF-8 round trip proved by case analysis + lia, no enumeration; vm_compute only in examples)", "harness/translate_py.py (fail-closed ast translator)",
                "extraction: ExtrOcamlBasic only; runner/driver.ml", "harness/posegen.py canonicalisers (NaN -> one word; errors -> one class)"]
     ASSUMPTIONS = ["CPython struct / bytes.decode / numpy astype(float32) behave as modelled in base/F32.v, base/Utf8.v (sampled by the correspondence)",
                    "hashlib.md5 is injective on the header slices compared (memo model stores the slice)"]
